@@ -74,6 +74,8 @@ func load() {
 // Reset restarts consumption of the recorded values (used between harness runs).
 func Reset() { load(); pos = 0; Failures = nil; Observed = nil; Reached = map[string]bool{} }
 
+var ndTrace = os.Getenv("VERIF_ND_TRACE") != ""
+
 func next(name, kind string) uint64 {
 	load()
 	if tvSeed != 0 {
@@ -81,6 +83,9 @@ func next(name, kind string) uint64 {
 		pos++
 		if v%4 == 0 {
 			v = v >> 8 % 3
+		}
+		if ndTrace {
+			fmt.Printf("VERIF-ND: %d %s %s\n", pos-1, kind, name)
 		}
 		return v
 	}
